@@ -37,9 +37,38 @@ func zzStub_time_After(d time.Duration) <-chan time.Time {
 	return ch
 }
 
-// time.NewTimer (with Stop / Reset) is the same environment as time.After.
+// time.NewTimer (with Stop / Reset) is the same environment as time.After:
+// every arming asks zzStub_time_After (which logs the duration and may decide
+// that the context is cancelled during the wait) and fires at once otherwise.
+var zzTimerChans map[*time.Timer]chan time.Time
+
+func zzArm(ch chan time.Time, d time.Duration) {
+	select {
+	case v := <-zzStub_time_After(d):
+		select {
+		case ch <- v:
+		default:
+		}
+	default:
+	}
+}
+
 func zzStub_time_NewTimer(d time.Duration) *time.Timer {
-	return &time.Timer{C: zzStub_time_After(d)}
+	ch := make(chan time.Time, 1)
+	zzArm(ch, d)
+	t := &time.Timer{C: ch}
+	if zzTimerChans == nil {
+		zzTimerChans = map[*time.Timer]chan time.Time{}
+	}
+	zzTimerChans[t] = ch
+	return t
+}
+
+func zzStub_time_Timer_Reset(t *time.Timer, d time.Duration) bool {
+	if ch := zzTimerChans[t]; ch != nil {
+		zzArm(ch, d)
+	}
+	return true
 }
 
 func zzStub_time_Timer_Stop(t *time.Timer) bool { return true }
@@ -149,6 +178,13 @@ func zzStub_system_dialNDP(ifi *net.Interface) (*ndp.Conn, netip.Addr, error) {
 		return nil, netip.Addr{}, zzErrOf(zzESyscallPerm)
 	case 3:
 		return nil, netip.Addr{}, zzErrOpaque
+	}
+	// the stop request may arrive while the socket is being opened -- and the
+	// open may still succeed: the connection then exists and must be cleaned up
+	if zzCancel != nil && !zzCancelled && zzCancelBudget > 0 && zzNondetChoice("cancel-during-dial", 2) == 1 {
+		zzCancelBudget--
+		zzCancelled = true
+		zzCancel()
 	}
 	c := new(ndp.Conn)
 	zzConns = append(zzConns, &zzConnRec{c: c})
